@@ -6,6 +6,7 @@ package ir
 
 import (
 	"fmt"
+	"go/ast"
 	"go/token"
 	"go/types"
 	"os"
@@ -73,6 +74,9 @@ func Load(dir string, extraEnv ...string) (*Prog, error) {
 	}
 	// normalisation: inline helper functions that are newer than the rules (see inline.go)
 	var notes, dead []string
+	if len(Canon) > 0 && os.Getenv("NXCHECK_NOINLINE") == "" {
+		notes = append(notes, computeAliases(pkgs)...)
+	}
 	if len(Canon) > 0 && os.Getenv("NXCHECK_NOINLINE") == "" {
 		overlay := map[string][]byte{}
 		for round := 1; round <= 4; round++ {
@@ -272,10 +276,90 @@ func ShortName(fn *ssa.Function) string {
 	if rel == "" {
 		return ""
 	}
+	name := rel + "." + fn.Name()
 	if recv := fn.Signature.Recv(); recv != nil {
-		return rel + "." + recvString(recv.Type()) + "." + fn.Name()
+		name = rel + "." + recvString(recv.Type()) + "." + fn.Name()
 	}
-	return rel + "." + fn.Name()
+	if old, ok := Alias[name]; ok {
+		return old
+	}
+	return name
+}
+
+// Alias maps the current short name of a renamed function to the name the rules know it by. A function of the
+// frozen table that no longer exists, and a new function with the same package, receiver and parameter names of
+// which there is exactly one, are taken to be the same function under a new name (computed before anything else is
+// analysed; recorded in Prog.Notes). A wrong guess can only turn "anchored function not found" into obligations
+// checked on the guessed function, never into a silent pass.
+var Alias = map[string]string{}
+
+func computeAliases(pkgs []*packages.Package) []string {
+	Alias = map[string]string{}
+	type decl struct {
+		short  string
+		params []string
+	}
+	var news []decl
+	declared := map[string]bool{}
+	for _, pkg := range pkgs {
+		if !strings.HasPrefix(pkg.PkgPath, ModPath) || pkg.TypesInfo == nil {
+			continue
+		}
+		for _, f := range pkg.Syntax {
+			for _, d := range f.Decls {
+				fd, ok := d.(*ast.FuncDecl)
+				if !ok || fd.Body == nil {
+					continue
+				}
+				obj, _ := pkg.TypesInfo.Defs[fd.Name].(*types.Func)
+				if obj == nil {
+					continue
+				}
+				rel := relPkg(pkg.Types)
+				sig := obj.Type().(*types.Signature)
+				short := rel + "." + obj.Name()
+				var ps []string
+				if r := sig.Recv(); r != nil {
+					short = rel + "." + recvString(r.Type()) + "." + obj.Name()
+					ps = append(ps, r.Name())
+				}
+				for i := 0; i < sig.Params().Len(); i++ {
+					ps = append(ps, sig.Params().At(i).Name())
+				}
+				declared[short] = true
+				if _, known := Canon[short]; !known && !ast.IsExported(obj.Name()) {
+					news = append(news, decl{short, ps})
+				}
+			}
+		}
+	}
+	var notes []string
+	used := map[string]bool{}
+	var missing []string
+	for k := range Canon {
+		if !strings.Contains(k, "$") && !declared[k] && !strings.HasSuffix(k, ".init") {
+			missing = append(missing, k)
+		}
+	}
+	sort.Strings(missing)
+	prefix := func(s string) string { return s[:strings.LastIndex(s, ".")+1] }
+	for _, m := range missing {
+		var cands []decl
+		for _, n := range news {
+			if used[n.short] || prefix(n.short) != prefix(m) {
+				continue
+			}
+			if strings.Join(n.params, ",") == strings.Join(Canon[m].Params, ",") {
+				cands = append(cands, n)
+			}
+		}
+		if len(cands) == 1 {
+			Alias[cands[0].short] = m
+			used[cands[0].short] = true
+			notes = append(notes, cands[0].short+" is analysed as "+m+" (renamed: same receiver and parameters, the old name is gone)")
+		}
+	}
+	return notes
 }
 
 func recvString(t types.Type) string {
